@@ -27,6 +27,8 @@ class Recorder:
         self.n_mutate = 0
         self.resamples = []  # dict(src=pop dict, beta_from, beta_to, n_req, out=pop dict)
         self.keep_resample_pops = False
+        self.mutated = []  # populations returned by the kernel step, in order
+        self.keep_mutated = True
 
 
 REC: Recorder | None = None
@@ -120,7 +122,12 @@ def install():
                 r.n_mutate += 1
                 r.events.append(("mutate", id(particles), float(beta)))
             try:
-                return orig(self, particles, beta, n_steps=n_steps)
+                out = orig(self, particles, beta, n_steps=n_steps)
+                if r is not None and r.keep_mutated:
+                    from .harness import pop_to_np
+
+                    r.mutated.append(pop_to_np(out))
+                return out
             finally:
                 if r is not None:
                     r.cur_beta = None
